@@ -170,9 +170,14 @@ def _checkout_pair(ck: Checker) -> None:
     for n in g2.nodes.values():
         for c in calls_at(n):
             cal = ck.res.resolve(cf, c)
-            if any(x.name in ("__call__", "_relink") for x in cal):
-                args = [norm(a) for a in c.args]
-                ck.require("cache_path" in args and "path" in args and args.index("cache_path") < args.index("path"), "C02.checkout.pair", cf, n, "links cache_path -> path", f"link call arguments are {args}", construct=f"{norm(c)[:60]} / source,dest")
+            for x in cal:
+                if x.name not in ("__call__", "_relink"):
+                    continue
+                sp, dp = ("from_path", "to_path") if x.name == "__call__" else ("cache_info", "path")
+                sa, da = get_arg(c, x, sp), get_arg(c, x, dp)
+                args = (norm(sa) if sa is not None else None, norm(da) if da is not None else None)
+                ck.require(args == ("cache_path", "path"), "C02.checkout.pair", cf, n, "links cache_path -> path", f"link call source/destination are {args}", construct=f"{norm(c)[:60]} / source,dest")
+                break
 
 
 def _load(ck: Checker) -> None:
